@@ -81,21 +81,41 @@ def _process_many(*args, connectable, zip, combine):
                 observer.on_next(x)
 
         is_done = [False] * n
+        source_failed = []
+        errors = []
 
         def done(i):
-            # the stream completes when all branches have completed
+            # the stream terminates when all branches have terminated
             is_done[i] = True
             if all(is_done):
-                observer.on_completed()
+                if len(errors) > 0:
+                    observer.on_error(errors[0])
+                else:
+                    observer.on_completed()
+
+        def on_error(i, e):
+            if len(source_failed) > 0:
+                # an error of the source reaches every branch: it is forwarded
+                # once they all have seen it
+                errors.append(e)
+                done(i)
+            else:
+                observer.on_error(e)
 
         subscriptions = [None] * n
+        # subscribed before the branches: notified first of a source error
+        source_subscription = connectable.subscribe(
+            on_error=source_failed.append,
+            scheduler=scheduler,
+        )
         for i in range(n):
             subscriptions[i] = sources[i].subscribe_(
                 on_next=functools.partial(on_next, i),
-                on_error=observer.on_error,
+                on_error=functools.partial(on_error, i),
                 on_completed=functools.partial(done, i),
                 scheduler=scheduler,
             )
+        subscriptions.append(source_subscription)
         subscriptions.append(connectable.connect(scheduler=scheduler))
         return CompositeDisposable(subscriptions)
 
